@@ -230,6 +230,9 @@ func isFloat(b *types.Basic) (int, bool) {
 	return 0, false
 }
 
+var zeroBV8 = MkBV(8, 0)
+var zeroBV64 = MkBV(64, 0)
+
 func zero(t types.Type) Value {
 	switch t := t.(type) {
 	case *types.Named, *types.Alias:
@@ -239,6 +242,12 @@ func zero(t types.Type) Value {
 			return TFalse
 		}
 		if w, _, ok := intWidth(t); ok {
+			switch w {
+			case 8:
+				return zeroBV8
+			case 64:
+				return zeroBV64
+			}
 			return MkBV(w, 0)
 		}
 		if w, ok := isFloat(t); ok {
